@@ -30,7 +30,7 @@ theorem bisync_run (le : P → P → Bool)
     (bisyncPlan le s) [] _ 0 (by simp) init
   exact ⟨l', n', hrun, inv,
     run_arch ge cname s.A s.B (baseOf s) (common0 s) (bisyncPlan le s) hact hnn hlive hnd nnc
-      (bisyncPlan le s) [] _ l' 0 n' (by simp) initA hrun⟩
+      (bisyncPlan le s) [] _ l' 0 n' (by simp) initA init hrun⟩
 
 theorem bisync_of_run (le : P → P → Bool) (ge : C → C → Bool) (cname : P → C → P) (s : State P C)
     (l : Live P C) (n : Nat)
